@@ -1118,7 +1118,7 @@ def run(ctx):
             'assumptions': ['zope.interface resolution orders (__sro__), WebOb request parsing and Accept negotiation, Python re are inputs of the model',
                             'sha256 over the predicate texts is treated as injective',
                             'view bodies, custom predicates and the security policy are harness-controlled and pure'],
-            'trusted_base': ['extract/c03.py (default predicate order, MAX_ORDER, order arithmetic shape, _find_views nesting, view type tuples)',
+            'trusted_base': ['extract/c03.py (probes the tree under test by running it: default predicate order, PredicateList.make order table, _find_views enumeration on a scratch registry, register_view probe order)',
                              'zope.interface adapter registry `registered`/`registerAdapter`/`unregister` (exact-slot storage)']}
 
 
